@@ -1,10 +1,17 @@
 #!/bin/sh
 # Self-test (not a manifest command): applies every seeded change that still applies to /repo HEAD in a scratch worktree
 # and runs the quick check of its property; expected rc=1 for each. Prints one line per seed.
+# usage: tools/run_all_seeds.sh [parallel jobs, default 1] [glob under seeded/, default *]
 cd /verif
-for d in seeded/*/; do
-  n=$(basename $d); p=${n%%-*}
-  if ! git -C /repo apply --check "/verif/$d/patch.diff" 2>/dev/null; then echo "$n: patch no longer applies to HEAD (kept for its base commit)"; continue; fi
+J=${1:-1}; G=${2:-*}
+one() {
+  d=$1; n=$(basename $d); p=${n%%-*}
+  if ! git -C /repo apply --check "/verif/$d/patch.diff" 2>/dev/null; then echo "$n: patch no longer applies to HEAD (kept for its base commit)"; return; fi
   out=$(tools/try_mutant.sh "$d/patch.diff" "$p" 2>&1 | tail -n 1)
   echo "$n: $out"
-done
+}
+if [ "$J" -le 1 ]; then
+  for d in seeded/$G/; do one $d; done
+else
+  ls -d seeded/$G/ | xargs -P "$J" -I{} sh -c 'd={}; n=$(basename $d); p=${n%%-*}; if ! git -C /repo apply --check "/verif/$d/patch.diff" 2>/dev/null; then echo "$n: patch no longer applies to HEAD (kept for its base commit)"; else echo "$n: $(tools/try_mutant.sh "$d/patch.diff" "$p" 2>&1 | tail -n 1)"; fi'
+fi
